@@ -111,6 +111,50 @@ def main():
     ck.family("available_prices_mode_bound_per_update", len(ascs), len(ascs), [], sorted({i for i, _, _, _ in abad}), dist={"fills_after_placement": nfill})
     for i, key, why, det in abad[:2]:
         ck.fail(key, "simulation_available_prices: " + why, dict(det, scenario=ascs[i], how="harness/impl/simlib.py with config.available_prices"))
+    # several placements in ONE package (a transaction), one of them on a runner that is removed while the package is on its way (voided and
+    # completed before the package executes): every other order is still placed with ITS OWN instruction (time in force, minimum fill)
+    mscs = []
+    for _ in range(45 if thorough else 15):
+        i0 = rng.randrange(6, 18)
+        t0 = 1_700_000_000_000
+        avail = rng.choice([300, 500])
+        def rr(sel, removed=False):
+            return {"id": sel, "status": "REMOVED" if removed else "ACTIVE", "adj": 1500, "atb": [] if removed else [[P[i0], avail], [P[i0 - 2], 2000]], "atl": [] if removed else [[P[i0 + 1], avail], [P[i0 + 3], 2000]], "trd": []}
+        gap = rng.choice([40, 60, 100])
+        ups = [{"pt": t0, "status": "OPEN", "version": 1, "runners": [rr(1), rr(2), rr(3)]},
+               {"pt": t0 + gap, "status": "OPEN", "version": 2, "runners": [rr(1, True), rr(2), rr(3)]},
+               {"pt": t0 + 400, "status": "OPEN", "version": 2, "runners": [rr(1, True), rr(2), rr(3)]},
+               {"pt": t0 + 800, "status": "OPEN", "version": 2, "runners": [rr(1, True), rr(2), rr(3)]}]
+        side = rng.choice(["BACK", "LAY"])
+        px = P[i0] if side == "BACK" else P[i0 + 1]
+        big = avail + rng.choice([200, 500])
+        plain = {"t": "L", "p": px, "s": big, "pt": "LAPSE", "tif": None, "mf": None}
+        fok = {"t": "L", "p": px, "s": big, "pt": "LAPSE", "tif": "FILL_OR_KILL", "mf": rng.choice([None, big])}
+        order_specs = [["place", 1, 1, side, dict(plain), {"mv": None}], ["place", 2, 2, side, dict(fok), {"mv": None}], ["place", 3, 3, side, dict(plain), {"mv": None}]]
+        if rng.random() < 0.5:
+            order_specs[1], order_specs[2] = ["place", 2, 2, side, dict(plain), {"mv": None}], ["place", 3, 3, side, dict(fok), {"mv": None}]
+        mscs.append({"config": {"place_latency": 0.12, "cancel_latency": 0.17, "update_latency": 0.15, "replace_latency": 0.28, "isolation": True},
+                     "clients": [{"bpe": True, "full_match": False, "limit": None, "min_val": False}], "strategies": [{"name": "s0", "client": 0}],
+                     "markets": [{"id": "1.100000001", "event": "20000001", "group": False, "type": "WIN", "bsp": False, "persist": True, "winners": 1, "updates": ups}],
+                     "script": [{"s": 0, "m": 0, "u": 0, "acts": [["txn_begin"]] + order_specs + [["txn_end"]]}]})
+    mouts = run_impl_parallel("simlib", [{"scenarios": [simgen.to_impl(x) for x in ch], "observe": "all"} for ch in chunked(mscs, 8)], timeout=1800)
+    mimpl = [r for o in mouts for r in o["out"]]
+    mbad = []
+    for i, (sc, io) in enumerate(zip(mscs, mimpl)):
+        if io.get("error"):
+            mbad.append((i, "C05-package", "the run aborted: %s" % str(io["error"])[:120], {})); continue
+        for key, why, det in propcheck.c05(sc, io)[:1]:
+            mbad.append((i, key, why, det))
+        for o in io["final"]:
+            if o["status"] == "Pending":
+                mbad.append((i, "C05-package", "order %s of the package was never placed (still Pending at the end of the run)" % o["o"], {"order": o["o"]})); break
+    ck.family("several_placements_in_one_package_one_runner_removed_meanwhile", len(mscs), len(mscs), [], sorted({i for i, *_ in mbad}), dist={"orders": 3 * len(mscs)})
+    for i, key, why, det in mbad[:2]:
+        ck.fail(key, "one package, several placements: " + why, dict(det, scenario=mscs[i], how="harness/impl/simlib.py (txn_begin ... txn_end)"))
+    # paper trading (live Flumine, paper_trade client, real threads and sleeps; outside the Coq model): an order is matched against the book in
+    # force when it ARRIVES at the simulated exchange, not the one it was submitted on
+    import papercheck
+    papercheck.run_family(ck, rng, 48 if thorough else 16, "paper_trading_book_in_force_on_arrival", ("C05",))
     return ck.finish("scenarios on the real FlumineSimulation (books with 1-3 levels per side, gaps, empty sides; limit prices through/at/behind the best; sizes around what is offered; FILL_OR_KILL with min fill absent/below/equal/above the size; best-price execution on/off; full-match clients) compared observation by observation with the Coq model (both tie-breaks); independent Python checker of the property on the implementation's fragments; distinct = distinct scripts with fills or >2 packages")
 
 
